@@ -19,14 +19,24 @@ def run(tier, seed, mutant=None, only_validate=False):
     try:
         if not only_validate:
             r, rec = amod.mc(res, work, "LoopBinding", "n%d" % (3 if tier == "quick" else 4),
-                             dict(MaxNodes=3 if tier == "quick" else 4, ForceSync=False), INVS, workers=16, coverage=False,
+                             dict(MaxNodes=3 if tier == "quick" else 4, ForceSync=False, WithRun=False, StarterLoop=False), INVS, workers=16, coverage=False,
                              timeout=3000)
             amod.spec_violation(res, r, rec, {}, "C19", "loopbinding")
-            r, rec = amod.mc(res, work, "LoopBinding", "legacy", dict(MaxNodes=2, ForceSync=True), ["AsyncStaysOnCaller"], coverage=False)
+            r, rec = amod.mc(res, work, "LoopBinding", "legacy", dict(MaxNodes=2, ForceSync=True, WithRun=False, StarterLoop=False), ["AsyncStaysOnCaller"], coverage=False)
             rec["expected_violation"] = "AsyncStaysOnCaller"
             rec["ok"] = r.violated == "AsyncStaysOnCaller"
             if r.violated != "AsyncStaysOnCaller":
                 raise core.MachineryError("sensitivity run: forced asynchronous=False not refuted by AsyncStaysOnCaller")
+            # where a started source runs: all starter contexts, two nodes
+            r, rec = amod.mc(res, work, "LoopBinding", "run_n2", dict(MaxNodes=2, ForceSync=False, WithRun=True, StarterLoop=False),
+                             INVS + ["RunsOnOwnLoop"], workers=16, coverage=False)
+            amod.spec_violation(res, r, rec, {}, "C19", "loopbinding")
+            r, rec = amod.mc(res, work, "LoopBinding", "starter_loop", dict(MaxNodes=1, ForceSync=False, WithRun=True, StarterLoop=True),
+                             ["RunsOnOwnLoop"], coverage=False)
+            rec["expected_violation"] = "RunsOnOwnLoop"
+            rec["ok"] = r.violated == "RunsOnOwnLoop"
+            if r.violated != "RunsOnOwnLoop":
+                raise core.MachineryError("sensitivity run: scheduling on the starter's loop not refuted by RunsOnOwnLoop")
         out = os.path.join(work, "runs")
         args = ["--tier", tier, "--seed", seed, "--out", out]
         if mutant:
@@ -38,7 +48,7 @@ def run(tier, seed, mutant=None, only_validate=False):
             runs = json.load(f)
         traces = [{"id": i, "ev": ev} for i, ev in enumerate(runs, start=1)]
         shards = [traces[k::8] for k in range(8)]
-        glist = [("loopbinding shard %d" % k, dict(MaxNodes=10, ForceSync=False), sh) for k, sh in enumerate(shards)]
+        glist = [("loopbinding shard %d" % k, dict(MaxNodes=10, ForceSync=False, WithRun=False, StarterLoop=False), sh) for k, sh in enumerate(shards)]
         reached, problems = amod.validate_groups(work, "LoopBindingTrace", glist)
         res.traces = len(runs)
         res.evaluations = sum(len(r) for r in runs)
@@ -56,10 +66,20 @@ def run(tier, seed, mutant=None, only_validate=False):
                 continue
             if got[0] >= got[1]:
                 res.accepted += 1
-                if len(t["ev"]) >= 2 and any(e["la"] or e["aa"] for e in t["ev"]):
-                    nt.add(json.dumps([(e["ups"], e["la"], e["aa"], e["ens"], e["cls"]) for e in t["ev"]]))
+                if len(t["ev"]) >= 2 and any(e.get("la") or e.get("aa") or "run" in e for e in t["ev"]):
+                    nt.add(json.dumps([(e["ups"], e["la"], e["aa"], e["ens"], e["cls"]) if "run" not in e else ("run", e["from"]) for e in t["ev"]]))
             else:
                 e = t["ev"][got[0] - 1]
+                if "run" in e:
+                    c = t["ev"][e["run"] - 1]
+                    res.violations.append(dict(
+                        property="C19", engine="aloop", clause="Run",
+                        what="%s(loop=%s, asynchronous=%s) bound to loop %s, start() called from a thread whose current loop is %s: its "
+                             "callbacks ran on loop %s (0 = never ran; 1, 2 = explicit loops, 4 = background loop, 5 = the starter's own loop)"
+                             % (c["cls"], c["la"], {0: None, 1: True, 2: False}[c["aa"]], c["loop"][-1], e["from"], e["on"]),
+                        signature=dict(kind="trace", clause="Run", cls=c["cls"], aa=c["aa"], la=c["la"]),
+                        replay=dict(engine="aloop", ops=t["ev"][:got[0]])))
+                    continue
                 res.violations.append(dict(
                     property="C19", engine="aloop", clause="Create",
                     what="constructor call #%d %s(upstreams=%s, loop=%s, asynchronous=%s, ensure_io_loop=%s): observed raised=%s "
@@ -71,7 +91,9 @@ def run(tier, seed, mutant=None, only_validate=False):
         res.nontrivial = len(nt)
         res.rule = ("aloop: all sequences of two generic constructor calls (upstream choice x explicit loop none/L1/L2 x asynchronous "
                     "None/True/False x ensure_io_loop), sampled sequences of three, and every loop-requiring node / source class alone and "
-                    "on top of a generic node; non-trivial = >= 2 calls with an explicit argument; distinct by call sequence")
+                    "on top of a generic node; sources (from_iterable, from_periodic) bound to a running explicit loop or the background loop "
+                    "and started from {a thread without loop, the pipeline's own loop, another running loop}, recording the loop their "
+                    "callbacks run on; non-trivial = >= 2 calls with an explicit argument; distinct by call sequence")
         for t in traces[:1] + traces[-1:]:
             res.samples.append(t["ev"])
     finally:
